@@ -90,8 +90,10 @@ Definition verify_decrypt (m : sec_mode) (pnone asym : bool) (A : algo) (hl : Z)
     | Err e => Err e
     | Panic => Panic
     | Ok b =>
+      if zlen b <? hl + a_rsig A then Err ESecurityChecks            (* length guard before slicing *)
+      else
       let n := zlen b - a_rsig A in
-      if (n <? 0) || (a_rsig A <? 0) then Panic                     (* b[len(b)-RemoteSignatureLength():] *)
+      if (n <? 0) || (a_rsig A <? 0) then Panic                     (* b[len(b)-signatureLength:] (negative length only) *)
       else
         let sg := zdrop n b in
         let msg := ztake n b in
@@ -99,19 +101,21 @@ Definition verify_decrypt (m : sec_mode) (pnone asym : bool) (A : algo) (hl : Z)
         else
           let padlen :=
             if encrypts m asym then
-              if zlen msg <? 1 then None                            (* messageToVerify[len-1] *)
+              let psb := if a_sig A >? 256 then 2 else 1 in
+              if zlen msg <? hl + psb then Err ESecurityChecks
+              else if zlen msg <? psb then Panic                    (* messageToVerify[len-1], [len-2] (hl < 0 only) *)
               else
                 let last := zb (znth (zlen msg - 1) msg) in
-                if a_sig A >? 256 then
-                  if zlen msg <? 2 then None                        (* messageToVerify[len-2] *)
-                  else Some (last * 256 + zb (znth (zlen msg - 2) msg) + 1 + 1)
-                else Some (last + 1)
-            else Some 0 in
+                if a_sig A >? 256 then Ok (last * 256 + zb (znth (zlen msg - 2) msg) + 1 + 1)
+                else Ok (last + 1)
+            else Ok 0 in
           match padlen with
-          | None => Panic
-          | Some pl =>
+          | Err e => Err e
+          | Panic => Panic
+          | Ok pl =>
             let hi := zlen msg - pl in
-            if (hl <? 0) || (hi <? hl) then Panic                   (* messageToVerify[headerLength : len-paddingLength] *)
+            if hi <? hl then Err ESecurityChecks
+            else if hl <? 0 then Panic                               (* messageToVerify[headerLength : …] *)
             else Ok (zdrop hl (ztake hi msg))
           end
     end.
@@ -175,12 +179,23 @@ Fixpoint send_loop (m : sec_mode) (A : algo) (first : bool) (s : Z) (cs : list b
     end
   end.
 
-(* SendMsgWithContext: newMessage draws a sequence number, EncodeChunks(instance.maxBodySize), send loop *)
-Definition send_message (m : sec_mode) (A : algo) (mt : bytes) (chan tok req maxBody s0 : Z) (body : bytes)
+(* checkPeerLimits (MSG/CLO): the limits the peer announced in HEL/ACK; 0 = no limit *)
+Definition check_peer_limits (pmc pmm : Z) (cs : list bytes) : option err :=
+  if (pmc >? 0) && ((zlen cs) mod 4294967296 >? pmc) then Some ETooManyChunks
+  else if (pmm >? 0) && (fold_left (fun acc c => acc + (zlen c - 24)) cs 0 >? pmm) then Some EMessageTooLarge
+  else None.
+
+(* SendMsgWithContext: newMessage draws a sequence number, EncodeChunks(instance.maxBodySize),
+   checkPeerLimits, send loop.  pmc/pmm: Conn.PeerMaxChunkCount / PeerMaxMessageSize *)
+Definition send_message (m : sec_mode) (A : algo) (mt : bytes) (chan tok req maxBody s0 pmc pmm : Z) (body : bytes)
   : res (list bytes * Z) :=
   let s1 := go_nextSequenceNumber s0 in
   match encode_chunks mt chan tok s1 req maxBody body with
-  | Ok cs => send_loop m A true s1 cs
+  | Ok cs =>
+    match check_peer_limits pmc pmm cs with
+    | Some e => Err e
+    | None => send_loop m A true s1 cs
+    end
   | Err e => Err e
   | Panic => Panic
   end.
@@ -210,19 +225,20 @@ Definition read_chunk (m : sec_mode) (pnone : bool) (A : algo) (chan : Z) (r : b
           else Ok (mkChunk ct ch (de32 d) (de32 (zdrop 4 d)) (zdrop 8 d))
         end.
 
-(* mergeChunks *)
-Fixpoint merge_loop (seqnr : Z) (cs : list chunk) : bytes :=
+(* mergeChunks: a chunk whose sequence number equals the previous chunk's is skipped as a duplicate;
+   the first chunk is never a duplicate *)
+Fixpoint merge_loop (first : bool) (seqnr : Z) (cs : list chunk) : bytes :=
   match cs with
   | [] => []
   | c :: rest =>
-    if c_seq c =? seqnr then merge_loop seqnr rest                 (* "duplicate chunk" *)
-    else c_data c ++ merge_loop (c_seq c) rest
+    if negb first && (c_seq c =? seqnr) then merge_loop false seqnr rest       (* "duplicate chunk" *)
+    else c_data c ++ merge_loop false (c_seq c) rest
   end.
 Definition merge_chunks (cs : list chunk) : bytes :=
   match cs with
   | [] => []
   | [c] => c_data c
-  | _ => merge_loop 0 cs
+  | _ => merge_loop true 0 cs
   end.
 
 Inductive out :=
@@ -250,12 +266,12 @@ Definition receive_step (c : rcfg) (t : chunk_table) (r : bytes) : chunk_table *
     if Byte.eqb (c_type ch) "A" then (tbl_del t req, [Aborted req])
     else if Byte.eqb (c_type ch) "C" then
       let l := tbl_get t req ++ [ch] in
-      if (zlen l) mod 4294967296 >? r_maxchunks c then (tbl_del t req, [Failed req ETooManyChunks])
+      if (r_maxchunks c >? 0) && ((zlen l) mod 4294967296 >? r_maxchunks c) then (tbl_del t req, [Failed req ETooManyChunks])
       else (tbl_set t req l, [])
     else
       let all := tbl_get t req ++ [ch] in
       let b := merge_chunks all in
-      if (zlen b) mod 4294967296 >? r_maxmsg c then (tbl_del t req, [Failed req EMessageTooLarge])
+      if (r_maxmsg c >? 0) && ((zlen b) mod 4294967296 >? r_maxmsg c) then (tbl_del t req, [Failed req EMessageTooLarge])
       else (tbl_del t req, [Deliver req (c_chan ch) b])
   end.
 
